@@ -95,16 +95,28 @@ def validate_and_report(rep, module, cfg, execs, keyfn, label, group=None, per_g
         for ex in execs:
             groups.setdefault(group(ex), []).append(ex)
     tot_val = tot_rej = 0
+    from concurrent.futures import ThreadPoolExecutor
+    chunk = kw.pop("chunk", 3000)
+    kw.setdefault("timeout", 3000)
     for g, exs in sorted(groups.items()):
-        nval, rejected, st = core.validate_batches(module, cfg, exs, max_reject=50 if group is None else per_group_reject, **kw)
-        rep.cov["states"] += st
-        rep.cov["transitions"] += st
-        rep.count(traces=nval, evaluations=len(exs), distinct=len(exs))
-        tot_val += nval
-        tot_rej += len(rejected)
-        for ei, pos, ex in rejected:
-            bad = ex[pos] if pos < len(ex) else {}
-            rep.disagree(keyfn(bad, ex), {"execution_head": ex[:2], "rejected_event": bad, "index": pos})
+        lim = 50 if group is None else per_group_reject
+        # large classes are validated in chunks of `chunk` executions, several JVMs side by side (a trace spec runs on one worker)
+        parts = [exs[i:i + chunk] for i in range(0, len(exs), chunk)]
+        with ThreadPoolExecutor(max_workers=min(6, len(parts))) as pool:
+            results = list(pool.map(lambda part: core.validate_batches(module, cfg, part, max_reject=lim, **kw), parts))
+        nrej = 0
+        for part, (nval, rejected, st) in zip(parts, results):
+            rep.cov["states"] += st
+            rep.cov["transitions"] += st
+            rep.count(traces=nval, evaluations=len(part), distinct=len(part))
+            tot_val += nval
+            for ei, pos, ex in rejected:
+                if nrej >= lim:
+                    break
+                nrej += 1
+                tot_rej += 1
+                bad = ex[pos] if pos < len(ex) else {}
+                rep.disagree(keyfn(bad, ex), {"execution_head": ex[:2], "rejected_event": bad, "index": pos})
     rep.sample({label: execs[len(execs) // 2][:3]})
     core.log("%s: %d executions validated, %d rejected (%d classes)" % (label, tot_val, tot_rej, len(groups)))
 
@@ -138,31 +150,46 @@ def replay_datearith(rep, b, beh, want_units, label):
         groups.setdefault(ops, []).append(j)
     tool = b.tool("dadd")
 
+    import datetime
+
+    def render(view, e):
+        d = datetime.date(*e)
+        if view == "ywd":
+            return "%04d-W%02d-%d" % d.isocalendar()
+        if view == "yd":
+            return "%04d-%03d" % (d.year, d.timetuple().tm_yday)
+        if view == "ymcw":
+            return "%04d-%02d-%02d-%02d" % (d.year, d.month, (d.day - 1) // 7 + 1, d.isoweekday())
+        return "%04d-%02d-%02d" % tuple(e)
+
     def one(item):
-        ops, js = item
-        args = ["%+d%s" % (k, u) for u, k in ops]
+        (ops, view), js = item
+        args = ["%+d%s" % (k, u) for u, k in ops] + (["-f", view] if view != "ymd" else [])
         inp = "".join("%04d-%02d-%02d\n" % tuple(j["s"]) for j in js)
         p = core.run([tool] + args, inp=inp, timeout=60)
-        return ops, js, p.returncode, p.stdout.splitlines()
+        return (ops, view), js, p.returncode, p.stdout.splitlines()
 
     n = 0
+    # the sum is printed as it is held (ymd) and converted to the other calendars on output (-f ywd / yd / ymcw): the clamp must have
+    # happened before any of them
+    items = [((ops, view), js) for ops, js in sorted(groups.items()) for view in ("ymd", "ywd", "yd", "ymcw")]
     with ThreadPoolExecutor(max_workers=core.NCPU) as ex:
-        for ops, js, rc, lines in ex.map(one, sorted(groups.items())):
-            opstr = " ".join("%+d%s" % (k, u) for u, k in ops)
+        for (ops, view), js, rc, lines in ex.map(one, items):
+            opstr = " ".join("%+d%s" % (k, u) for u, k in ops) + ("" if view == "ymd" else " -f " + view)
             if len(lines) != len(js):
                 rep.disagree("%s dadd %s: %d lines for %d inputs rc=%d" % (label, opstr, len(lines), len(js), rc), {"ops": opstr})
                 continue
             for j, got in zip(js, lines):
                 n += 1
-                want = "%04d-%02d-%02d" % tuple(j["e"])
                 if j["e"][0] < 1601 or j["e"][0] > 4095:
                     continue
+                want = render(view, j["e"])
                 if got != want:
-                    rep.disagree("%s dadd units=%s" % (label, "+".join(sorted(set(u for u, _ in ops)))),
+                    rep.disagree("%s dadd units=%s%s" % (label, "+".join(sorted(set(u for u, _ in ops))), "" if view == "ymd" else " printed as " + view),
                                  {"start": "%04d-%02d-%02d" % tuple(j["s"]), "ops": opstr, "got": got, "want": want})
     rep.count(evaluations=n, distinct=n, traces=n)
     rep.notes.setdefault("tool_runs", 0)
-    rep.notes["tool_runs"] += len(groups)
+    rep.notes["tool_runs"] += len(items)
     if beh:
         rep.sample({"datearith_behaviour": beh[len(beh) // 2]})
     core.log("%s: %d behaviours replayed through dadd in %d runs" % (label, n, len(groups)))
